@@ -328,6 +328,14 @@ def search(ctx, budget):
             nt = len(set(a)) > 1 and len(set(b)) > 1
         else:
             inp = {"a": rand_chain(rng), "b": rand_chain(rng)}
+            if i % 12 == 11:
+                # two outlines less than one unit apart without touching, with facing parallel edges (closest points at nodes and at
+                # round parameter values): any estimate in squared units is smaller than the distance here
+                g = rng.choice([0.25, 0.5, 0.75, 0.125])
+                w = float(rng.randint(5, 40))
+                x0, y0 = float(rng.randint(-50, 50)), float(rng.randint(-50, 50))
+                sq = lambda x: [[(x, y0), (x + w, y0)], [(x + w, y0), (x + w, y0 + w)], [(x + w, y0 + w), (x, y0 + w)], [(x, y0 + w), (x, y0)]]
+                inp = {"a": sq(x0), "b": sq(x0 + w + g)}
             kind = "paths"
             nt = True
         if nt and repr(inp) not in seen:
